@@ -111,6 +111,8 @@ def check(run):
     if drv is None:
         run.tie_broken('extraction of the effects model', err)
         return run.finish('proof')
+    from props.C11 import compare_summaries
+    nfun, _, _ = compare_summaries(run, drv, rng, 300 if thorough else 60, 'depends')
     chains = []
     for base in ('mutable', 'const', 'literal'):
         chains.append((base, []))
@@ -184,7 +186,7 @@ def check(run):
             mism.append(dict(case=name, note='twin without restricted use rejected', errors=errs[:2]))
     if mism:
         run.tie_broken('computability: model verdict / twins vs type checker', mism[:6] + [dict(total=len(mism))])
-    run.cov.update(evaluations=len(cases) + len(extra), distinct_nontrivial=len(cases), traces_validated_against_impl=len(cases),
+    run.cov.update(functions_depends_compared=nfun, evaluations=len(cases) + len(extra) + nfun, distinct_nontrivial=len(cases), traces_validated_against_impl=len(cases),
                    rule='%d compile-time contexts x dependence chains of length 0..4 over {const initialiser, function return, function local, if condition, while condition, function argument, call chain} ending in a '
                         'mutable variable (must be rejected), a constant or a literal (must be accepted); verdict vs the extracted reads/ctc model; plus free / bound / partially instantiated process parameters in array sizes' % len(CONTEXTS),
                    samples=[dict(context=c[3], chain=c[1], base=c[0], expr=G.e_txt(c[2].expr, c[2].N)) for c in cases[5:8]], rejected=nrej, accepted=nacc, per_context_accept_reject=per_ctx)
